@@ -18,6 +18,8 @@ for p in sorted(root.rglob("*.py")):
         h, names = alpha_hash(fn)
         d[qual] = {"hash": h, "locals": names}
     d["__functions__"] = sorted(allf)
+    import hashlib
+    d["__module_hash__"] = hashlib.sha1(ast.dump(tree, include_attributes=False).encode()).hexdigest()[:16]
     out[rel] = d
 REF_PATH.write_text(json.dumps(out, indent=0, sort_keys=True))
 print("functions:", sum(len(v["__functions__"]) for v in out.values()), "with locals:", sum(len(v) - 1 for v in out.values()))
